@@ -270,7 +270,8 @@ PROPS = {
                  "Oracle: NewTable/NewTableCustom return exactly one of (table, error) and never panic; String/Dump and lookups with every picker x matcher x glob on/off x TLS on every host never panic; "
                  "accepted tables have finite non-negative weights summing to 1; sentinel relation: text + one more 'route add' line, when accepted, contains that route (no partial table). "
                  "(b) histories of 3-30 valid/invalid service and manual updates through the real main.go update loop fed by a fake registry backend: the active table always equals the table of the last valid "
-                 "combined text; SetTable(nil) ignored. (c) under -race: a writer installs generation-stamped tables while 2-16 readers look up every (host,path) from one snapshot: one generation per snapshot, "
+                 "combined text; SetTable(nil) ignored; custom-backend histories (valid / malformed / rejected / null / HTTP 500 payloads) whose definitions carry weight, tags and opts only now and then and leave unset "
+                 "fields out of the JSON: the active table equals the table of the last good payload incl. fixed weights, tags and opts. (c) under -race: a writer installs generation-stamped tables while 2-16 readers look up every (host,path) from one snapshot: one generation per snapshot, "
                  "complete and sorted, generations monotone and within the writer's window. Non-trivial = (a) text with >=2 commands and >=1 hostile token that passes the line grammar; (b) history containing "
                  "invalid followed by valid; (c) workload with >=2 readers and >=2 routes. Thorough adds native fuzzing of the text oracle."),
         "technique": "rapid grammar-based robustness + metamorphic sentinel test; model-based update histories through the real loop; race-detector workload with generation oracle; native go fuzzing (thorough)",
@@ -291,12 +292,16 @@ PROPS = {
         "assumptions": COMMON_ASSUME,
     },
     "C04": {
-        "units": [{"pkg": "./c04", "shards": 8, "shards_thorough": 16, "timeout": 600}],
+        "units": [
+            {"pkg": "./c04", "shards": 8, "shards_thorough": 16, "timeout": 600},
+            {"pkg": "./mainpkg", "run": "^TestC04", "shards": 4, "shards_thorough": 8, "timeout": 900},
+        ],
         "rule": ("rapid-generated routes with 1-40 targets, each fixed weight in {0, k/10000, tiny, >1 up to 10, negative} or dynamic, built by 'route add ... weight' lines and "
                  "0-6 'route weight' commands over services and tag sets. Oracle: float64 reference arithmetic from the statement (tolerance 1e-9 on Target.Weight, sum 1); "
                  "two full round-robin cycles through Table.Lookup from a generated offset: periodic, share within (2+N)/(10000-N) of the weight, positive weight never starved, "
                  "zero weight never picked, equal-weight routes exactly uniform; rnd picker driven through every ring index gives the same multiset. "
-                 "Non-trivial = >=3 targets mixing fixed and dynamic weights, or a 'route weight' matching >=2 targets; distinct by sorted fixed-weight vector."),
+                 "Non-trivial = >=3 targets mixing fixed and dynamic weights, or a 'route weight' matching >=2 targets; distinct by sorted fixed-weight vector. Listener level (mainpkg): http, tcp, tcp+sni and https+tcp+sni listeners wired the way main.go wires them (lookupHostFn, lookupHostMatcher, configured picker), 2-4 equally weighted upstreams, "
+                 "3-12 full round-robin cycles of sequential connections counted per upstream: every upstream gets exactly its share (+-1 for the readiness probe)."),
         "technique": "rapid property test against reference weight arithmetic; full-cycle round-robin counting",
         "level_text": "Effective weights of generated target sets are compared with reference arithmetic and the round-robin/rnd pickers are driven through complete cycles and counted. Exploration only.",
         "level_note": "Ring length is read through a verif hook (VerifRingLen) and independently bounded to 10000±N (or N for equal weights); weights are finite and <= 10 (non-finite/huge weights belong to C02).",
